@@ -15,6 +15,7 @@ func init() {
 }
 
 func c08(c *q.Ctx) {
+	blockAgentHashes(c)
 	const led = "bcs/ledger/xledger/ledger::"
 	blkT := c.TypeOf("bcs/ledger/xledger/xldgpb", "InternalBlock")
 	mb := c.Fn(led + "MakeBlockID")
@@ -136,4 +137,16 @@ func c08(c *q.Ctx) {
 		"bcs/ledger/xledger/utils::CreateLedgerWithData":              "genesis creation (para-chain)",
 		"kernel/engines/xuperos/parachain::*":                         "para-chain genesis creation",
 	}, "a block enters the ledger only through these paths")
+}
+
+// blockAgentHashes (C08, C16): the consensus checks "id == hash of the header" through BlockInterface.MakeBlockId; the
+// one production implementation answers with a freshly computed hash of the block it wraps - never with an id it
+// remembers (the one a received block carries is exactly what is being checked).
+func blockAgentHashes(c *q.Ctx) {
+	mb := c.Fn("bcs/ledger/xledger/state::(*BlockAgent).MakeBlockId")
+	if mb == nil {
+		return
+	}
+	c.ReturnIs(mb, 0, []string{"nil", "ledger.MakeBlockID(p0.blk)#0"}, "the id handed to the consensus is computed from the header, on every call")
+	c.Gate(mb, "ledger::MakeBlockID", q.ToSuccess(), q.Opt{})
 }
